@@ -11,7 +11,7 @@ import (
 
 func init() {
 	register("C04",
-		"numbers are created in a by-value copy of the 34-digit Context128 and the module never writes a context field; each of `+ - * / %` (and unary minus) on numbers performs exactly the matching decimal operation (Add, Sub, Mul, Quo, Rem, Neg) into a number created by newDecimalBig in the same handler, with operands coerced from (left, right) in that order, and returns that result; on the number-entry paths (value normaliser, numeric literal, string/bool coercion, the five arithmetic handlers) no 64-bit Go integer is converted to float64 and no binary float is parsed: Go floats enter through SetString(FormatFloat(f, 'f'|'g'|'e', -1, 64)), literals through SetString(<literal text>) with the failure turned into an error; Float64() is called only at the final exit and in the host-call bridge.",
+		"numbers are created in a by-value copy of the 34-digit Context128 and the module never writes a context field; each of `+ - * / %` (and unary minus) on numbers performs exactly the matching decimal operation (Add, Sub, Mul, Quo, Rem, Neg) into a number created by newDecimalBig in the same handler, with operands coerced from (left, right) in that order, and returns that result; on the number-entry paths (value normaliser, numeric literal, string/bool coercion, the five arithmetic handlers) no 64-bit Go integer is converted to float64 and no binary float is parsed: Go floats enter through SetString(FormatFloat(f, 'f'|'g'|'e', -1, 64)), literals through SetString(<literal text>) with the failure turned into an error; Float64() is called only at the final exit and in the host-call bridge. The number text the literal arm converts is assembled from separator-free fragments and the exponent marker up to the exponent digits; every path of the literal arm passes SetString.",
 		"that the library's Add/Sub/Mul/Quo/Rem are correctly rounded half-even to 34 digits, and the accuracy of the final Float64() (both are properties of ericlagergren/decimal, which is trusted, not analysed).",
 		runC04)
 }
